@@ -25,7 +25,8 @@ THEOREMS = [
     "C16_options_never_requirements", "C16_guard_never_decides", "C16_first_part_exists", "C16_newlines_do_not_matter",
     "C16_parse_requirements_skips",
     "C16_front_ends_agree_partial", "C16_front_ends_agree_example", "C16_options_honoured_partial",
-    "C16_nested_directive_refuted", "C16_multi_option_line_refuted", "C16_gen_obligations",
+    "C16_nested_directive_refuted", "C16_multi_option_line_refuted", "C16_glued_hash_directive_refuted",
+    "C16_front_ends_agree_files_partial", "C16_gen_obligations",
 ]
 RULE = ("(1) trees of file items (comments, blanks, requirements with tokens/hashes/inline comments, option lines, "
         "-r/--requirement includes to nested item lists up to depth 4) are rendered BY THE EXTRACTED Coq `render` to "
@@ -39,7 +40,10 @@ RULE = ("(1) trees of file items (comments, blanks, requirements with tokens/has
         "(a third of the cases also pass --index-url/--extra-index-url on the command line itself); "
         "(4) parse_index_urls and the argparse re-parse on token soups, utils.parse_requirements on entry soups; (5) posixpath "
         "dirname/join; (6) an independent Python oracle of the statement (reader vs pip vs the file's items; CLI vs Bazel on "
-        "plain long-form index directives) on conventional trees; (7) the witnesses of the _refuted theorems replayed on the "
+        "plain long-form index directives) on conventional trees, run from a working directory that holds decoy files of every "
+        "include's relative name; (8) 2-3 input files in different directories, each with its own --index-url / --extra-index-url / "
+        "--find-links lines, in every order through compile_main and compile_requirements against cli_front_files / "
+        "bazel_front_files and against the declared locations; (7) the witnesses of the _refuted theorems replayed on the "
         "real code and on pip.  Non-trivial = the "
         "file has a continuation, a hash, an include or an option line and was read without error; distinct = distinct "
         "file maps.")
@@ -55,7 +59,7 @@ ASSUMPTIONS = [
     "the requirement parser drops a trailing ' #...' comment (pkg_resources drop_comment); req_meaning states it on tokens",
     "shlex.split (posix, no comment characters) and re.sub of utils._COMMENT_RE are re-modelled (shlex_split, drop_comment) and compared with CPython on every run",
     "argparse tokens beginning with -h (other than -h itself), an explicit argument '--', and -e/--editable are reported as Unmodelled and never generated",
-    "the stdin branch of _create_input_reqs is covered only as req_iter_from_lines with relative_dir=None; several input files / several Bazel requirement files (accumulation across files) are not covered: every case has one root file",
+    "the stdin branch of _create_input_reqs is covered only as req_iter_from_lines with relative_dir=None; several input files are covered for flat files (no includes) in every order, through both front-ends; constraint files (-c / constraints=) are not",
     "front-end comparison stops at the arguments of build_repo (index_urls, extra_index_urls, find_links, no_index); relative --find-links are resolved against different directories by the two front-ends (cwd vs the file's directory), which is not compared",
 ]
 
@@ -1233,6 +1237,8 @@ def _oracle_tree(ctx: Ctx, items: List[Dict[str, Any]], case_dir: Path, mode: st
         all(i["k"] != "O" or (i["first"].split("=")[0] in ("--index-url", "--extra-index-url", "--find-links")
                               and len(i["rest"]) == (0 if "=" in i["first"] else 1)       # one directive per line
                               and all(g[0] == "s" for g, _ in i["rest"])                  # the Bazel scanner does not join lines
+                              # known finding C16-bazel-cuts-glued-hash: the Bazel scanner cuts a value at any '#'
+                              and "#" not in i["first"] and all("#" not in w for _, w in i["rest"])
                               ) for i in items)
     if plain and any(i["k"] == "O" for i in items):
         c, b = impl_cli(root, str(case_dir / "_wd")), impl_bazel(root)
